@@ -311,6 +311,29 @@ func (in *c02Injector) injectOne() {
 		if c.T.Bias(1, 4, "nofp") {
 			spec.Fingerprint = rig.FpAbsent
 		}
+		if c.T.Bias(1, 3, "replay-txid") {
+			// the forged request reuses the transaction id (and the source address, and the local candidate) of
+			// a genuine request of the peer that this agent has just verified and answered
+			var recent []txInfo
+			for _, t := range in.transactions(peer, ph) {
+				if t.dst == dst && t.age < 2*time.Second {
+					recent = append(recent, t)
+				}
+			}
+			if len(recent) > 0 {
+				t := recent[len(recent)-1-c.T.Choose(min(len(recent), 2), "whichrecent")]
+				spec.TxID = &t.id
+				src, srcKind = t.src, "source-of-verified-request"
+				known = false
+				for _, r := range remotes {
+					if r.Addr == "udp/"+src.String() {
+						known = true
+					}
+				}
+				cat += "/txid-of-verified-request"
+				c.Probe("forged-request-with-txid-of-verified-request")
+			}
+		}
 	case 1: // B: success responses
 		spec.Class = stun.ClassSuccessResponse
 		spec.XorAddr = &dst
